@@ -1,6 +1,6 @@
 //! Metaheuristic configurations.
 
-use std::{fs::File, path::Path};
+use std::{fs::File, io::Write, path::Path};
 
 use eyre::WrapErr;
 
@@ -141,14 +141,17 @@ impl<P: Problem> Configuration<P> {
     /// # }
     /// ```
     pub fn to_ron(&self, path: impl AsRef<Path>) -> ExecResult<()> {
+        let file = File::create(path.as_ref()).wrap_err("failed to create configuration file")?;
+        let mut writer = std::io::BufWriter::new(file);
         ron::ser::to_writer_pretty(
-            std::io::BufWriter::new(
-                File::create(path).wrap_err("failed to create configuration file")?,
-            ),
+            &mut writer,
             self.heuristic(),
             ron::ser::PrettyConfig::default().struct_names(true),
         )
-        .wrap_err("failed to serialize configuration")
+        .wrap_err("failed to serialize configuration")?;
+        writer
+            .flush()
+            .wrap_err("failed to write configuration file")
     }
 
     /// Runs the `Configuration` on the `problem` using a given [`State`].
